@@ -48,20 +48,24 @@ Refresh(parts) ==
     /\ hist' = Append(hist, [a |-> "refresh", args |-> [parts |-> parts], req |-> [served |-> TRUE, refreshed |-> TRUE], impl |-> [cookies |-> SetAsSeq(Slots(parts))]])
     /\ UNCHANGED <<phase, cfg>>
 
-SignOut(method, rd, fault) ==
+\* stale = 0: the session is inside the refresh period.  stale = p > 0: the session is older than the refresh period when the
+\* sign-out arrives, so the session loader refreshes it (re-saving it with p cookie parts) in the very request that signs out.
+SignOut(method, rd, fault, stale) ==
     /\ phase = "in"
-    /\ (fault # "none" => cfg.store = "redis")
+    /\ (fault # "none" => cfg.store = "redis" /\ stale = 0)
+    /\ gen' = IF stale > 0 THEN gen + 1 ELSE gen
     /\ IF fault = "none"
        THEN /\ jar' = {} /\ stored' = (IF DeleteKey THEN 0 ELSE stored)
-            /\ hist' = Append(hist, [a |-> "signout", args |-> [method |-> method, rd |-> rd, fault |-> fault],
+            /\ hist' = Append(hist, [a |-> "signout", args |-> [method |-> method, rd |-> rd, fault |-> fault, stale |-> stale],
                                      req |-> [status |-> 302, sessionCookiesLeft |-> 0, deletedAll |-> TRUE, deletionAttrsMatch |-> TRUE,
-                                              keyExists |-> FALSE]])
-       ELSE \* the DEL fails: the ticket cookie is expired in the response, but the answer must be an error, not the redirect
+                                              keyExists |-> FALSE, stillSignedIn |-> FALSE]])
+       ELSE \* the store fails (only the DEL, or every command of this request): the answer must be an error, not the redirect,
+            \* as long as the stored session is still there
             /\ jar' = {} /\ stored' = stored
-            /\ hist' = Append(hist, [a |-> "signout", args |-> [method |-> method, rd |-> rd, fault |-> fault],
+            /\ hist' = Append(hist, [a |-> "signout", args |-> [method |-> method, rd |-> rd, fault |-> fault, stale |-> stale],
                                      req |-> [status |-> [not |-> 302], keyExists |-> TRUE]])
     /\ phase' = "out"
-    /\ UNCHANGED <<snaps, gen, cfg>>
+    /\ UNCHANGED <<snaps, cfg>>
 
 \* every cookie set the browser ever held is presented again
 \* server-side store: none may authenticate after a successful sign-out.  (With the cookie store the credential is
@@ -76,7 +80,7 @@ ReplayAll ==
 
 Next == \/ \E p \in {1, 2} : Login(p) \/ Refresh(p)
         \/ Request
-        \/ \E m \in {"GET", "POST"}, rd \in {"none", "path"}, f \in {"none", "del_error"} : SignOut(m, rd, f)
+        \/ \E m \in {"GET", "POST"}, rd \in {"none", "path"}, f \in {"none", "del_error", "outage"}, st \in 0..2 : SignOut(m, rd, f, st)
         \/ ReplayAll
 
 \* model-level: after a successful sign-out nothing is stored and the jar is empty
